@@ -814,6 +814,8 @@ class Interp:
             return hasattr('', name)
         if type(obj).__name__ in ('AbsAny', 'AbsVal'):
             return False
+        if isinstance(obj, (float, bytes)):
+            return hasattr(obj, name)
         raise Unsupported('hasattr on %r' % (type(obj),))
 
     # ---------------------------------------------------------------- truth / iteration
